@@ -124,7 +124,15 @@ def gen_cases(run):
             spec["layout"] = lay
             nn = tn
             trap = tp
-        if k in ("sort", "intra", "over_multiply", "over_exact", "fewshot", "classwise_index", "classwise_percent") and rng.random() < 0.25:
+        if k in ("sort", "intra", "over_multiply", "over_exact", "fewshot", "classwise_index", "classwise_percent", "shuffle") and rng.random() < 0.03:
+            # boundary class: more samples than a narrow label dtype can count (labels stored as uint8 / int8 / int16, as label files do)
+            big_n = rng.randint(300, 700)
+            ncls_b = rng.randint(2, 8)
+            lay = {"n": big_n, "ncls": ncls_b, "classes": [rng.randrange(ncls_b) for _ in range(big_n)],
+                   "getall": rng.choice(["ndarray:uint8", "ndarray:int8", "ndarray:int16", "tensor:uint8", "tensor:int8", "tensor:int16"])}
+            spec["layout"] = lay
+            nn = big_n
+        elif k in ("sort", "intra", "over_multiply", "over_exact", "fewshot", "classwise_index", "classwise_percent") and rng.random() < 0.25:
             spec["inner_shuffle"] = rng.randrange(1000)  # the wrapper sits on a full-length permuting subset of the leaf
             # ... whose root was analysed by class-aware wrappers before (what is learnt about the root must not stick to layers above it)
             spec["pre_analyse"] = rng.random() < 0.5
@@ -205,7 +213,7 @@ def _leaf(lay, names=False):
                 except Exception:
                     pass  # whether the root itself can be analysed is judged by the cases without inner layer
         return kdw.ShuffleWrapper(ds, seed=lay["inner_shuffle"])
-    ds = Leaf(lay["n"], tag="L", classes=lay["classes"], n_classes=lay["ncls"])
+    ds = Leaf(lay["n"], tag="L", classes=lay["classes"], n_classes=lay["ncls"], getall_kind=lay.get("getall", "list"))
     if names:
         ds.class_names = [f"name{c}" for c in range(2 if lay["ncls"] == 1 else lay["ncls"])]
     return ds
